@@ -30,7 +30,7 @@ SCOPE = ('a GymEnvironment wrapped directly around OuterEnv(GridWorld) whose inn
          'GymStateWrapper returns the state representation, passes the observation through info, advertises env.state_space; '
          'set_state_representation / set_observation_representation advertise outer_space_to_gym_space of the new representation and switch the produced arrays')
 BOUNDS = {
-    'quick': dict(worlds='1x2 and 2x2 over {Floor, Wall, Exit, Key(YELLOW), Door(LOCKED,YELLOW)} (state-representation obligations: 2x2 over 3 objects), every pose, held none/Key', view='1x3, fully transparent',
+    'quick': dict(worlds='1x2 over {Floor, Wall, Exit, Key(YELLOW), Door(LOCKED,YELLOW)} and 2x2 over {Floor, Key(YELLOW), Door(LOCKED,YELLOW)}, every pose, held none/Key; every operation preceded by a symbolic choice of earlier reads (none / observation / state / both) and followed by reads of both properties', view='1x3, fully transparent',
                   action_spaces='a permutation of all 8 actions and a 3-action subset; every index', representations='default, no-overlap, compact (state and observation)'),
     'thorough': dict(worlds='plus 2x3', view='1x3 and 2x3', action_spaces='same', representations='same'),
 }
@@ -74,7 +74,7 @@ def mk(H, W, actions, what, view=Shape(1, 3)):
         inner = make_inner(H, W, actions, view, holder)
         twin = make_inner(H, W, actions, view, holder)
         wrap = what.startswith('wrapper') or what == 'switch'
-        sig = SIG3 if wrap else SIG5
+        sig = SIG3 if (wrap or H * W >= 4) else SIG5
         from ..stubs import ORS
         S, world = lazy_state(sx, H, W, SIG5[:1] if what.endswith('reset') else sig, held_sigma=HELD, orientations=ORS[:1] if what.endswith('reset') else ORS)
         inner._state = S
@@ -84,6 +84,20 @@ def mk(H, W, actions, what, view=Shape(1, 3)):
         sx.check(genv.action_space.n == len(actions), 'discrete-action-space-size')
         sx.check(genv.observation_space == outer_space_to_gym_space(orep.space) and genv.state_space == outer_space_to_gym_space(srep.space), 'advertised-spaces')
         sx.cover(what)
+        # reads that may have happened before the operation (the adapter must not keep anything of them)
+        can_state = H >= 2 and W >= 2
+        prior = sx.choice('prior', (['none', 'both'] if what in ('step', 'wrapper-step', 'switch') else ['none', 'observation', 'state', 'both']) if can_state else ['none', 'observation'])
+        if prior in ('observation', 'both'):
+            genv.observation
+        if prior in ('state', 'both'):
+            genv.state
+
+        def fresh_views(label, st):
+            """after the operation both properties show the current state, whatever was read before"""
+            sx.check(dict_eq(genv.observation, orep.convert(twin.functional_observation(fast_copy(st)))), label + '-observation-property-current')
+            if can_state:
+                sx.check(dict_eq(genv.state, srep.convert(st)), label + '-state-property-current')
+
         if what in ('step', 'wrapper-step'):
             i = sx.int('i', 0, len(actions) - 1)
             S0 = fast_copy(S)
@@ -105,11 +119,11 @@ def mk(H, W, actions, what, view=Shape(1, 3)):
                 sx.check(dict_eq(ob, exp_state), 'wrapper-returns-the-state-representation')
                 sx.check(set(info) == {'observation'} and dict_eq(info['observation'], exp_obs), 'wrapper-passes-the-observation-through-info')
                 sx.check(env.observation_space is genv.state_space and bool(env.observation_space.contains(ob)), 'wrapper-advertises-and-respects-the-state-space')
+            fresh_views('after-step', S1)
         elif what in ('reset', 'wrapper-reset'):
             fresh, _ = lazy_state(sx, H, W, sig, name='r', held_sigma=[], agent='r', held='rheld', orientations=ORS[1:3])
             holder['fresh'] = fresh
             env = GymStateWrapper(genv) if what == 'wrapper-reset' else genv
-            genv.observation  # a memoised observation of the old state must not survive the reset
             ob = env.reset()
             sx.check(inner._state is fresh, 'reset-installs-the-fresh-state')
             if what == 'reset':
@@ -117,6 +131,7 @@ def mk(H, W, actions, what, view=Shape(1, 3)):
                 sx.check(bool(genv.observation_space.contains(ob)), 'reset-observation-inside-advertised-space')
             else:
                 sx.check(dict_eq(ob, srep.convert(fresh)), 'wrapper-reset-returns-the-state-representation')
+            fresh_views('after-reset', fresh)
         elif what == 'switch':
             name = sx.choice('name', ['default', 'no-overlap', 'compact'])
             which = sx.choice('which', ['state', 'observation'])
@@ -145,10 +160,13 @@ def obligations(tier):
     for (H, W) in worlds:
         for aname, actions in (('perm8', PERM), ('subset3', SUBSET)):
             for what in ('step', 'reset'):
+                if q and what == 'step' and aname == 'perm8' and H * W >= 4:
+                    continue  # the 8-action space is exercised on 1x2; 2x2 uses the 3-action subset
                 obs.append(Obligation(f'{what}-{aname}-{H}x{W}', mk(H, W, actions, what), dict(what=what, actions=[a.name for a in actions], H=H, W=W)))
     for (H, W) in [(2, 2)] + ([] if q else [(2, 3)]):  # the state representation needs height, width >= 2
         for what in ('wrapper-step', 'wrapper-reset', 'switch'):
-            obs.append(Obligation(f'{what}-perm8-{H}x{W}', mk(H, W, PERM, what), dict(what=what, H=H, W=W)))
+            acts, an = (SUBSET, 'subset3') if (q and what == 'wrapper-step') else (PERM, 'perm8')
+            obs.append(Obligation(f'{what}-{an}-{H}x{W}', mk(H, W, acts, what), dict(what=what, H=H, W=W, actions=an)))
     if not q:
         obs.append(Obligation('step-perm8-2x2-view2x3', mk(2, 2, PERM, 'step', Shape(2, 3)), dict(what='step', view=[2, 3])))
     return obs
